@@ -21,7 +21,7 @@ RULE = ("a valid multi-stream trace from the simulated machine (all models in ro
         "different stored state)")
 REAL = ["ovniemu (src/emu/**) built from /repo's working tree"]
 STUB = ["libovni replaced by the independent trace writer; base traces come from the E2 reference machine and must be accepted first"]
-ASSUMPTIONS = ["truncation exactly on an event boundary is not in the statement's list (the result can be a valid trace) and is not demanded",
+ASSUMPTIONS = ["truncation exactly on an event boundary can leave a valid trace; it is demanded to be rejected only when the reference model rejects the shortened history",
                "which events have their payload size checked is frozen from the property's anchors: payload removed from OHx OAs OAr OM* VT* 6T*, "
                "exact sizes for OAs OAr OM* 6Tc, jumbo flag on VYc/6Yc"]
 
@@ -52,7 +52,30 @@ def run(case, ctx):
             r["ihash"] = ""
             return r
         models = w.models
-        for (kind, desc, si, nobs, njson) in sf.single_corruptions(streams, models, Rng(1), case.get("stride", 1)):
+
+        def boundary_truncations():
+            """Truncation on an event boundary is only demanded to be rejected when the reference
+            model itself rejects the shortened history (e.g. a thread is left alive)."""
+            ths = w.threads
+            for si, s in enumerate(streams):
+                spans = sf.event_spans(s.obs_bytes())
+                mine = [ai for ai, a in enumerate(case["actions"]) if ths[a[0]].stream is s]
+                for j in range(len(spans)):
+                    keep = set(mine[:j])
+                    c2 = {"world": case["world"], "actions": [a for ai, a in enumerate(case["actions"]) if ai not in mine or ai in keep]}
+                    try:
+                        _, m2, _ = sf.materialise(c2)
+                    except Exception:
+                        continue
+                    if m2.end_verdict()[0] != "reject":
+                        continue
+                    cut = spans[j][0]
+                    yield ("truncate:event-boundary", "stream %d truncated on an event boundary to %d bytes (%d events): %s"
+                           % (si, cut, j, m2.end_verdict()[1]), si, s.obs_bytes()[:cut], None)
+
+        import itertools
+        for (kind, desc, si, nobs, njson) in itertools.chain(sf.single_corruptions(streams, models, Rng(1), case.get("stride", 1)),
+                                                             boundary_truncations()):
             changed = []
             if isinstance(si, list):
                 for i in si:
